@@ -1,0 +1,13 @@
+//go:build verif
+
+package martian
+
+// VerifLiveContexts returns the number of live request-to-context
+// associations. Used by the runtime verification harness as a leak check at
+// quiescence.
+func VerifLiveContexts() int {
+	ctxmu.RLock()
+	defer ctxmu.RUnlock()
+
+	return len(ctxs)
+}
